@@ -98,6 +98,17 @@ def directed_units(rng, ws, n_each):
             units.append((pre + '%s[] a = %s;\nempty @is_you(int i, int j) { %s }\n' % (el, lit, body), grid5))
             units.append((pre + 'empty st(%s[] a, int i, int j) { %s }\nempty @is_you(int i, int j) { %s[] q = %s; st(q, i, j); }\n' % (el, body, el, lit), grid5))
             units.append((pre + 'empty @is_you(int i, int j) { %s a[4]; for (int k = 0; k < 4; k += 1) { a[k] = noisy(k); } %s }\n' % (el, body), grid5))
+    # index / length / divisor expressions that are CASTS of computed or global ints (the guard must see the narrowed value the access uses)
+    gpre = 'int gi = 0;\n'
+    forms = ['(i + 1) is byte', 'i is byte', '((i * 2) is byte) is int', '(gi + 0) is byte', 'gi is byte', '((i + 1) is byte) + 0', '(i is bool) is int', '((i - 1) is byte) is int']
+    for el, val in (('byte', "'#'"), ('int', '7'), ('bool', 'true')):
+        for f in forms:
+            src = gpre + ('empty @is_you(int i, int j) { gi = i; %s buf[10]; for (int k = 0; k < 10; k += 1) { buf[k] = %s; } write("<"); buf[%s] = %s; write(buf[%s]); buf[%s] %s write(">"); }\n'
+                          % (el, {'byte': "'.'", 'int': '0', 'bool': 'false'}[el], f, val, f, f, {'byte': "= 'x';", 'int': '+= 2;', 'bool': '= false;'}[el]))
+            units.append((src, [Cfg((str(i), '1'), w, 200, False) for i in (0, 1, 9, 10, 255, 256, 257, 265, 600, -1, -255, -256, 511) for w in ws]))
+        for f in forms[:5]:
+            src = gpre + 'empty @is_you(int i, int j) { gi = i; write("<"); %s a[%s]; write(a.length); write(">"); int d = 100 / (%s); write(d); }\n' % (el, f, f)
+            units.append((src, [Cfg((str(i), '1'), w, 400, False) for i in (0, 1, 9, 255, 256, 257, 600, -1, -255, -256) for w in ws]))
     # nonlocal preempt at return
     src = ('empty !baba(int c) { if (c > 5) { preempt { write("p"); } } write("b"); }\n'
            'empty @is_you(int a, int b) { try { write("<"); !baba(a); !truth_is_defeat(b > 0); write(">"); } undo { write("U"); } write("."); }\n')
